@@ -185,6 +185,18 @@ PROPS["C09"] = dict(
     assumptions=["exception tables tools/constbranch_tables.json (12 entries, one reason each)"],
 )
 
+PROPS["C11"] = dict(
+    level="other",
+    claim="All 33 specialisations of fixed_shape/fixed_dim/fixed_size/bounded_dim/bounded_size for view types derive every reported value only from the type of the view's own shape()/size() accessors (or its dst_shape_type/dst_size_type typedefs) or recursively from the same traits of operands: no literals, no value arithmetic other than the product of extents / operand bounds, never ::min for an upper bound and never ::max for an exact value. Because constant-index types carry their value in the type and clipped types clamp to max, 'reported = run time' resp. '>= run time' then holds by construction. Clipping events for particular run-time shapes are not decided.",
+    note=E2_NOTE,
+    technique="static: custom libTooling extractor + provenance grammar over trait specialisations",
+    e2=[dict(rule="R-TRAITPROV")],
+    rule="E2: one instance per lambda body of a trait specialisation for view::decorator_t<...>; distinct by (file, line)",
+    explanation="Static knowledge disagreeing with run-time objects needs a trait value that is not read from the run-time accessor's type; that is visible in the shape of the trait's definition.",
+    not_decided="whether a removed per-view specialisation lets the generic operand-size fallback apply (reported as analysis-broken through the instance floor), run-time clipping",
+    assumptions=[],
+)
+
 HOOK_COMMITS = []
 NOT_APPLICABLE = [
  dict(property_id="C05", reason="slice lengths go through ceil(float) and an 8-way sign/None case split on run-time values; no sound static argument in reach, and weaker structural proxies are not necessary conditions (DESIGN §3 C05)"),
